@@ -20,7 +20,10 @@ ATOM_TEXT = {'txt': 'ALFA', 'quote': '"', 'backslash': '\\', 'endscript': '</scr
 # the "plain text" atom is whatever a bank writes into a description: also text that looks like markup to an HTML tokenizer or
 # like syntax to a JavaScript / JSON reader.  It has no meaning of its own in a report - it must come back as it went in
 TXT_FORMS = ['ALFA', 'ACH DEBIT <!-- REF 8841 --> ACME', '<script>x', ']]> <![CDATA[', '&amp; &lt;b&gt; &#39;', "';alert(1)//", '<!--<script>',
-             '--> <!--', '${amount} `tick`', '\\u0041 \\n \\!', '<\\/ </ <\\!--', '\u2028line\u2029sep', '{{ merchant }} {% x %}', '<!doctype html><body>']
+             '--> <!--', '${amount} `tick`', '\\u0041 \\n \\!', '<\\/ </ <\\!--', '\u2028line\u2029sep', '{{ merchant }} {% x %}', '<!doctype html><body>',
+             # text that is NOT in Unicode normal form C (a combining mark as exports of some systems write it, compatibility characters):
+             # the same characters come back, not their canonical equivalents
+             'Cafe\u0301 Zu\u0308rich \u212b \u2126 \ufb01n', 'e\u0301\u0323 \u1e69 \uf900']
 _KNOWN_PH = {'/* CSS_PLACEHOLDER */', '/* DATA_PLACEHOLDER */', '/* JS_PLACEHOLDER */'}
 
 
@@ -86,7 +89,7 @@ def build_txns(data_atoms, names, rnd, variant):
     end = END_TAGS[variant % len(END_TAGS)]
     extra = harvest_placeholders()
     xph = ' '.join(extra) if extra else 'XPH'         # no further placeholder in this template: the atom is plain text
-    desc = ' '.join(end if a == 'endscript' else xph if a == 'x_ph' else TXT_FORMS[variant % len(TXT_FORMS)] if a == 'txt' else ATOM_TEXT[a]
+    desc = ' '.join(end if a == 'endscript' else xph if a == 'x_ph' else TXT_FORMS[(variant * 7 + len(data_atoms) * 5 + len(names[0]) * 3 + len(names[1])) % len(TXT_FORMS)] if a == 'txt' else ATOM_TEXT[a]
                     for a in data_atoms) or 'PLAIN'
     n1 = ''.join(NAME_TEXT[a] for a in names[0])
     n2 = ''.join(NAME_TEXT[a] for a in names[1])
